@@ -363,6 +363,7 @@ def run(ctx):
     ctx.floor(r_g, ng, 4, "membership-guarded insertions")
     refset_rule(ctx, syn)
     shortcut_rule(ctx)
+    refres_rule(ctx, syn)
 
 
 def split_and(c):
@@ -459,3 +460,77 @@ def shortcut_rule(ctx):
         if isinstance(nxt, int) and nxt not in avoid and any(nxt == rt or b.can_reach(nxt, rt, avoid=avoid) for rt in rets):
             ctx.report(r2, "miss-keeps-buffer", "in the Equals shortcut of next_textselection the path on which known_textselection finds no selection for a member of the reference set reaches the return without clearing the buffer: the selections found for earlier members are returned although the comment (and the all-or-nothing meaning of EQUALS on a set) says none are", b.file, t.get("line"))
             break
+
+
+# ---------------------------------------------------------------------- REFRES
+def refres_rule(ctx, syn, rid="C06.REFRES"):
+    """the search runs over the position index of `refset.resource()`.  A set collected from result selections is created
+    with a dummy resource handle; FromIterator<ResultTextSelection> is evaluated on one- and two-member sequences of bound
+    and unbound selections of resource 7: the set must end up on resource 7 whatever kind its first member is."""
+    from formula import Evaluator, Unknown, Panic, StructVal, EnumVal, some
+    r = ctx.rule(rid, "a TextSelectionSet collected from ResultTextSelections takes the resource of its first member whether that member is bound or unbound (evaluated on all one- and two-member sequences)")
+    fns = [f for f in syn.fns if f.name == "from_iter" and f.file == "src/textselection.rs" and (f.self_ty or "") == "TextSelectionSet" and re.sub(r"<.store>", "", f.trait or "") == "FromIterator<ResultTextSelection>" and f.body is not None]
+    if len(fns) != 1:
+        ctx.anchor_missing(r, "FromIterator<ResultTextSelection> for TextSelectionSet")
+        return
+    fn = fns[0]
+    ctx.functions_analysed.add(fn.qual)
+    RES = StructVal("Resource", {"handle": some(7)})
+
+    def is_rts(v):
+        return isinstance(v, EnumVal) and v.name in ("Bound", "Unbound")
+
+    def h_store(ev, recv, args, node, env):
+        if is_rts(recv) or (isinstance(recv, StructVal) and recv.tyname == "ResultItem"):
+            return RES
+        return NotImplemented
+
+    def h_handle(ev, recv, args, node, env):
+        if isinstance(recv, StructVal) and recv.tyname == "Resource":
+            return recv["handle"]
+        return NotImplemented
+
+    def h_expect(ev, recv, args, node, env):
+        if isinstance(recv, tuple) and recv and recv[0] == "some":
+            return recv[1]
+        if recv is None:
+            raise Panic("expect-on-none", node.get("l"))
+        return NotImplemented
+
+    def h_add(ev, recv, args, node, env):
+        if isinstance(recv, StructVal) and "data" in recv and len(args) == 1:
+            recv["data"].append(args[0])
+            return ()
+        return NotImplemented
+
+    def h_as_ref(ev, recv, args, node, env):
+        if isinstance(recv, StructVal) and recv.tyname == "ResultItem":
+            return recv["item"]
+        return NotImplemented
+
+    def h_is_empty(ev, recv, args, node, env):
+        if isinstance(recv, StructVal) and "data" in recv:
+            return len(recv["data"]) == 0
+        return NotImplemented
+    hooks = {"store": h_store, "resource": h_store, "handle": h_handle, "expect": h_expect, "unwrap": h_expect, "add": h_add, "as_ref": h_as_ref, "is_empty": h_is_empty,
+             "call:SmallVec::new": lambda ev, recv, args, node, env: [], "call:TextResourceHandle::new": lambda ev, recv, args, node, env: ("dummy", args[0]),
+             "call:Self::new": lambda ev, recv, args, node, env: StructVal("Self", {"data": [], "resource": args[0], "sorted": False}),
+             "call:TextSelectionSet::new": lambda ev, recv, args, node, env: StructVal("Self", {"data": [], "resource": args[0], "sorted": False})}
+    B = lambda n_: EnumVal("Bound", [StructVal("ResultItem", {"item": ("sel", n_)})])
+    U = lambda n_: EnumVal("Unbound", ["STORE", RES, ("sel", n_)])
+    params = [(p_.get("pat") or {}).get("name") for p_ in fn.sig["inputs"]]
+    n = 0
+    for seq, label in (([B(1)], "bound"), ([U(1)], "unbound"), ([B(1), U(2)], "bound,unbound"), ([U(1), B(2)], "unbound,bound"), ([U(1), U(2)], "unbound,unbound"), ([B(1), B(2)], "bound,bound")):
+        try:
+            got = Evaluator(hooks=hooks).run_body(fn.body, {params[0]: list(seq)})
+        except (Unknown, Panic) as ex:
+            ctx.report(r, "unevaluated", "FromIterator<ResultTextSelection> for TextSelectionSet could not be evaluated (%s): which resource the collected set is searched in is not established" % ex, fn.file, fn.line)
+            break
+        n += 1
+        res = got.get("resource") if isinstance(got, dict) else None
+        r.hit(label, sample={"members": label, "resource": repr(res)})
+        if res != 7:
+            ctx.report(r, "dummy-resource:" + label.split(",")[0] + "-first", "a set collected from the selections (%s) of resource 7 ends up with resource %r: related_text() on it searches the position index of another resource (the dummy handle 0) with this set's offsets" % (label, res), fn.file, fn.line)
+        if isinstance(got, dict) and len(got.get("data", [])) != len(seq):
+            ctx.report(r, "members:" + label, "a set collected from %d selections holds %d members" % (len(seq), len(got.get("data", []))), fn.file, fn.line)
+    ctx.floor(r, n, 6, "member sequences evaluated")
